@@ -198,6 +198,7 @@ static int run_once(const char* vname, const std::string& content_tag, const std
     g_armed = 0;
   }
   if (report) {
+    if ((n_eval % 1999) == 3) sample(std::string("{\"variant\":\"") + vname + "\",\"content\":\"" + jesc(content_tag) + "\",\"script\":\"" + script_str() + "\",\"read_points\":" + std::to_string(g_point) + ",\"outcome\":\"" + (vd.crashed ? "crash" : vd.aborted ? "abort" : "verifier ran") + "\"}", 6);
     n_eval++;
     if (!g_script.empty()) n_nontriv++;
     std::string kase = std::string(vname) + "|" + content_tag + "|" + script_str();
